@@ -7,7 +7,7 @@ from contextlib import suppress
 import claripy
 from claripy import backends
 from claripy.ast import Base
-from claripy.errors import BackendError, ClaripyFrontendError
+from claripy.errors import BackendError, ClaripyFrontendError, ClaripyZeroDivisionError
 
 from .constrained_frontend import ConstrainedFrontend
 
@@ -110,7 +110,11 @@ class ReplacementFrontend(ConstrainedFrontend):
             return self._replacement_cache[old.hash()]
 
         # not found in the cache
-        new = claripy.replace_dict(old, self._replacement_cache)
+        try:
+            new = claripy.replace_dict(old, self._replacement_cache)
+        except ClaripyZeroDivisionError:
+            # a division that Z3 defines but eager concrete folding does not: leave it to the solver
+            return old
         if new is not old:
             self._replacement_cache[old.hash()] = new
         return new
